@@ -18,3 +18,50 @@ package fsm
 //@ ensures[roots-cas-honest] req.Op == structs.CAOpSetRoots ==> commits() == ite(is[bool](res) && as[bool](res), old(commits()) + 1, old(commits()))
 //@ ensures[config-cas-honest] req.Op == structs.CAOpSetConfig && old(req.Config.ModifyIndex) != 0 ==> commits() == ite(is[bool](res) && as[bool](res), old(commits()) + 1, old(commits()))
 //@ ensures[composite-all-or-nothing] req.Op == structs.CAOpSetRootsAndConfig && !(is[bool](res) && as[bool](res)) ==> commits() == old(commits())
+
+//@ file snapshot_ce.go
+
+// ---- C02 (persist half, per record type). The snapshot stream is a ghost sequence of items - the byte strings written
+// to the sink and the objects handed to the msgpack encoder (outLen/outIsBytes/outBytes/outObj). A persister writes,
+// for EVERY row its state iterator yields and in iterator order, the record-type byte followed by the row (for
+// tombstones: a directory entry carrying the tombstone's key and, as ModifyIndex, its index) - nothing else.
+//@ func snapshot.persistTombstones
+//@ props C02
+//@ results err
+//@ requires s != nil && s.state != nil
+//@ ensures[every-tombstone-written] err == nil ==> outLen() == old(outLen()) + 2*itLen(stones) && forall j int :: 0 <= j && j < itLen(stones) ==> outIsBytes(old(outLen()) + 2*j) && eq(outBytes(old(outLen()) + 2*j), byte1(structs.TombstoneRequestType)) && !outIsBytes(old(outLen()) + 2*j + 1) && is[*structs.DirEntry](outObj(old(outLen()) + 2*j + 1)) && allocated(as[*structs.DirEntry](outObj(old(outLen()) + 2*j + 1))) && as[*structs.DirEntry](outObj(old(outLen()) + 2*j + 1)).Key == itElem(stones, j).(*state.Tombstone).Key && as[*structs.DirEntry](outObj(old(outLen()) + 2*j + 1)).ModifyIndex == itElem(stones, j).(*state.Tombstone).Index
+//@ loop 1 invariant[pos] 0 <= itPos(stones) && itPos(stones) <= itLen(stones)
+//@ loop 1 invariant[cursor] (stone != nil ==> itPos(stones) >= 1 && stone == itElem(stones, itPos(stones)-1)) && (stone == nil ==> itPos(stones) == itLen(stones))
+//@ loop 1 invariant[written-so-far] outLen() == old(outLen()) + 2*ite(stone != nil, itPos(stones) - 1, itPos(stones)) && forall j int :: 0 <= j && j < ite(stone != nil, itPos(stones) - 1, itPos(stones)) ==> outIsBytes(old(outLen()) + 2*j) && eq(outBytes(old(outLen()) + 2*j), byte1(structs.TombstoneRequestType)) && !outIsBytes(old(outLen()) + 2*j + 1) && is[*structs.DirEntry](outObj(old(outLen()) + 2*j + 1)) && allocated(as[*structs.DirEntry](outObj(old(outLen()) + 2*j + 1))) && as[*structs.DirEntry](outObj(old(outLen()) + 2*j + 1)).Key == itElem(stones, j).(*state.Tombstone).Key && as[*structs.DirEntry](outObj(old(outLen()) + 2*j + 1)).ModifyIndex == itElem(stones, j).(*state.Tombstone).Index
+
+//@ func snapshot.persistKVs
+//@ props C02
+//@ results err
+//@ requires s != nil && s.state != nil
+//@ ensures[every-row-written] err == nil ==> outLen() == old(outLen()) + 2*itLen(entries) && forall j int :: 0 <= j && j < itLen(entries) ==> outIsBytes(old(outLen()) + 2*j) && eq(outBytes(old(outLen()) + 2*j), byte1(structs.KVSRequestType)) && !outIsBytes(old(outLen()) + 2*j + 1) && outObj(old(outLen()) + 2*j + 1) == any(itElem(entries, j).(*structs.DirEntry))
+//@ loop 1 invariant[pos] 0 <= itPos(entries) && itPos(entries) <= itLen(entries)
+//@ loop 1 invariant[cursor] (entry != nil ==> itPos(entries) >= 1 && entry == itElem(entries, itPos(entries)-1)) && (entry == nil ==> itPos(entries) == itLen(entries))
+//@ loop 1 invariant[written-so-far] outLen() == old(outLen()) + 2*ite(entry != nil, itPos(entries) - 1, itPos(entries)) && forall j int :: 0 <= j && j < ite(entry != nil, itPos(entries) - 1, itPos(entries)) ==> outIsBytes(old(outLen()) + 2*j) && eq(outBytes(old(outLen()) + 2*j), byte1(structs.KVSRequestType)) && !outIsBytes(old(outLen()) + 2*j + 1) && outObj(old(outLen()) + 2*j + 1) == any(itElem(entries, j).(*structs.DirEntry))
+
+//@ func snapshot.persistSessions
+//@ props C02
+//@ results err
+//@ requires s != nil && s.state != nil
+//@ ensures[every-row-written] err == nil ==> outLen() == old(outLen()) + 2*itLen(sessions) && forall j int :: 0 <= j && j < itLen(sessions) ==> outIsBytes(old(outLen()) + 2*j) && eq(outBytes(old(outLen()) + 2*j), byte1(structs.SessionRequestType)) && !outIsBytes(old(outLen()) + 2*j + 1) && outObj(old(outLen()) + 2*j + 1) == any(itElem(sessions, j).(*structs.Session))
+//@ loop 1 invariant[pos] 0 <= itPos(sessions) && itPos(sessions) <= itLen(sessions)
+//@ loop 1 invariant[cursor] (session != nil ==> itPos(sessions) >= 1 && session == itElem(sessions, itPos(sessions)-1)) && (session == nil ==> itPos(sessions) == itLen(sessions))
+//@ loop 1 invariant[written-so-far] outLen() == old(outLen()) + 2*ite(session != nil, itPos(sessions) - 1, itPos(sessions)) && forall j int :: 0 <= j && j < ite(session != nil, itPos(sessions) - 1, itPos(sessions)) ==> outIsBytes(old(outLen()) + 2*j) && eq(outBytes(old(outLen()) + 2*j), byte1(structs.SessionRequestType)) && !outIsBytes(old(outLen()) + 2*j + 1) && outObj(old(outLen()) + 2*j + 1) == any(itElem(sessions, j).(*structs.Session))
+
+// ---- C02 (restore half in the FSM): what the decoder delivers is what reaches the state restorer - for tombstones the
+// directory entry's key and ModifyIndex become the tombstone's key and index (the inverse of persistTombstones).
+//@ func restoreTombstone
+//@ props C02
+//@ results err
+//@ requires restore != nil
+//@ ensures[decoded-entry-becomes-the-tombstone] err == nil ==> T_tombstones(req.Key) != nil && T_tombstones(req.Key).Key == req.Key && T_tombstones(req.Key).Index == req.ModifyIndex
+
+//@ func restoreKV
+//@ props C02
+//@ results err
+//@ requires restore != nil
+//@ ensures[decoded-entry-stored] err == nil ==> T_kvs(req.Key) != nil && T_kvs(req.Key).ModifyIndex == req.ModifyIndex && T_kvs(req.Key).CreateIndex == req.CreateIndex && eq(T_kvs(req.Key).Value, req.Value) && T_kvs(req.Key).Session == req.Session && T_kvs(req.Key).Flags == req.Flags && T_kvs(req.Key).LockIndex == req.LockIndex
